@@ -32,9 +32,9 @@ type c11Step struct {
 	Docs      []c11Doc        `json:"docs"`
 	Accts     []int           `json:"accts"`
 	Signfail  [][3]int        `json:"signfail"`
-	Relayfail []int           `json:"relayfail"`
-	Nodefail  []int           `json:"nodefail"`
-	Nodeout   [][]interface{} `json:"nodeout"`
+	Signkind  string          `json:"signkind"` // kind of the failing signing requests' error
+	Relayout  [][]interface{} `json:"relayout"` // the failing relays: [id, kind of failure]
+	Nodeout   [][]interface{} `json:"nodeout"`  // Round: the failing nodes [id, kind]; Prep: every node [id, "ok" | kind]
 	Regs      [][3]int        `json:"regs"`
 	Lat       string          `json:"lat"` // latency script of the round: none | slow | batched
 }
@@ -43,6 +43,18 @@ type c11Scenario struct {
 	Sc    int       `json:"sc"`
 	Steps []c11Step `json:"steps"`
 }
+
+// c11Outs reads a set of [id, kind] pairs.
+func c11Outs(in [][]interface{}) map[int]string {
+	out := map[int]string{}
+	for _, x := range in {
+		out[int(x[0].(float64))] = x[1].(string)
+	}
+	return out
+}
+
+// c11NumNodes: three beacon nodes, so that a failing one can be the first, the middle or the last of the configured list.
+const c11NumNodes = 3
 
 // c11PrepExpired counts preparation rounds in which a node was never called: after a few of them the
 // tree is known to be broken and the rest of the batch does not wait the full period again.
@@ -157,6 +169,7 @@ func c11RunScenario(t *testing.T, tr *verifsupport.Trace, sc c11Scenario) {
 	// whatever an abandoned instance still has blocked on this context is let go when the history is over
 	defer cancel()
 	env := c11NewEnv(t, tr, sc.Sc, sc.Steps[0].Docs)
+	env.numNodes = c11NumNodes
 	// the real standard signer (BLS signatures verified by the relay fakes) on every fourth scenario
 	// in the quick tier and on all of them in the thorough tier; a hashing signer otherwise
 	realSigner := verifsupport.Tier() == "thorough" || sc.Sc%4 == 0
@@ -211,14 +224,9 @@ func c11RunScenario(t *testing.T, tr *verifsupport.Trace, sc c11Scenario) {
 			for _, k := range st.Signfail {
 				env.signFail[k] = true
 			}
-			env.relayFail = map[int]bool{}
-			for _, r := range st.Relayfail {
-				env.relayFail[r] = true
-			}
-			env.nodeFail = map[int]bool{}
-			for _, n := range st.Nodefail {
-				env.nodeFail[n] = true
-			}
+			env.signKind = st.Signkind
+			env.relayFail = c11Outs(st.Relayout)
+			env.nodeFail = c11Outs(st.Nodeout)
 			env.mode = "reg"
 			env.newRound(st.Lat)
 			env.gate, env.gateArrived = nil, 0
@@ -292,10 +300,7 @@ func c11RunScenario(t *testing.T, tr *verifsupport.Trace, sc c11Scenario) {
 			h.run("Prep", func() {
 				env.mu.Lock()
 				env.accts = c11Ints(st.Accts)
-				env.prepOut = map[int]string{}
-				for _, no := range st.Nodeout {
-					env.prepOut[int(no[0].(float64))] = no[1].(string)
-				}
+				env.prepOut = c11Outs(st.Nodeout)
 				env.prepSeen = 0
 				env.newRound(st.Lat)
 				env.mu.Unlock()
@@ -347,10 +352,7 @@ func c11RunScenario(t *testing.T, tr *verifsupport.Trace, sc c11Scenario) {
 					Signature: sig,
 				}
 			}
-			fail := map[int]bool{}
-			for _, r := range st.Relayfail {
-				fail[r] = true
-			}
+			fail := c11Outs(st.Relayout)
 			if second {
 				// a REST forwarding call made while the held round is in flight: the second lane
 				env.mu.Lock()
@@ -386,7 +388,7 @@ func c11RunScenario(t *testing.T, tr *verifsupport.Trace, sc c11Scenario) {
 				env.emit(verifsupport.Ev{"ev": "FwdEnd", "ok": ferr == nil})
 				env.mu.Lock()
 				env.mode = "reg"
-				env.relayFail = map[int]bool{}
+				env.relayFail = map[int]string{}
 				env.mu.Unlock()
 			})
 		default:
